@@ -650,7 +650,7 @@ def items(tier: str, seed: int) -> List[Dict[str, Any]]:
         for t in range(n):
             for wh in (0, 1):
                 out.append({"ob": "step_abort", "params": {"sid": sid, "spec": spec, "tgts": [t, t + 1], "where": wh},
-                            "timeout": 300 if quick else 900, "label": f"step_abort[{sid},tgt={t},{'entry' if wh == 0 else 'exit'}]"})
+                            "timeout": 450 if quick else 900, "label": f"step_abort[{sid},tgt={t},{'entry' if wh == 0 else 'exit'}]"})
     str_skels = ["CUR2", "CUR4", "CUR8", "CUR9"] if quick else ["CUR2", "CUR4", "CUR8", "CUR9", "CUR15", "CUR5"]
     for sid in str_skels:
         spec = skeletons.CURATED[sid]
@@ -662,7 +662,7 @@ def items(tier: str, seed: int) -> List[Dict[str, Any]]:
             if s == 0 and not quick:
                 L -= 1  # the root as source resolves the most spellings
             out.append({"ob": "step_string", "params": {"sid": sid, "spec": spec, "maxlen": L, "src": s},
-                        "timeout": 240 if quick else 700, "path_timeout": 30, "label": f"step_string[{sid},src={s},L={L}]"})
+                        "timeout": 400 if quick else 700, "path_timeout": 30, "label": f"step_string[{sid},src={s},L={L}]"})
     for sid in ([] if quick else ["CUR1", "CUR2", "CUR8", "CUR9"]):
         spec = skeletons.CURATED[sid]
         out.append({"ob": "step_unres", "params": {"sid": sid, "spec": spec, "maxlen": 2 if quick else 3, "alphabet": _alphabet(spec)},
@@ -671,8 +671,10 @@ def items(tier: str, seed: int) -> List[Dict[str, Any]]:
     for sid in (("CUR3", "CUR7", "CUR11") if quick else ("CUR3", "CUR4", "CUR6", "CUR7", "CUR10", "CUR11", "CUR13")):
         for ev in ("E0", "E2", "E4") if quick else ("E0", "E1", "E2", "E3", "E4"):
             for eng in (0, 1):
+                if quick and eng == 1 and sid == "CUR7" and ev == "E0":
+                    continue    # 3840 paths at 0.12 s since the wiring grew (E5/E6): thorough tier only; the sync twin stays in quick
                 out.append({"ob": "macro_step", "params": {"sid": sid, "spec": skeletons.CURATED[sid], "eng": eng, "event": ev, "wired": True},
-                            "timeout": 330 if quick else 900, "label": f"macro_step[{sid},{ev},{'sync' if eng == 0 else 'async'}]"})
+                            "timeout": 400 if quick else 1200, "label": f"macro_step[{sid},{ev},{'sync' if eng == 0 else 'async'}]"})
     out.append({"ob": "descendant_smt", "params": {"sid": "CUR1", "spec": skeletons.CURATED["CUR1"]}, "timeout": 300, "label": "descendant_smt[7-node tree, keys of any length]"})
     for sid, spec in cur + fam[: (10 if quick else 40)]:
         out.append({"ob": "snapshot_legal", "params": {"sid": sid, "spec": spec}, "timeout": 60, "label": f"snapshot_legal[{sid}]"})
